@@ -403,10 +403,10 @@ def asm14Engine : List String → String
       | _ => none)
     match parsed with
     | some xs =>
-      let (s, r) := asmPlan xs
-      match r with
-      | some x => s!"refused={x.tag}"
-      | none => s!"order={",".intercalate (s.map (fun x => toString x.tag))}"
+      match asmVerdict xs with
+      | .duplicate _ => "duplicate"
+      | .underMount x => s!"refused={x.tag}"
+      | .proceed s => s!"order={",".intercalate (s.map (fun x => toString x.tag))}"
     | none => "bad-op"
   | _ => "bad-op"
 
